@@ -27,6 +27,9 @@ type Divergence struct {
 	Expected any    `json:"expected"`
 	Actual   any    `json:"actual"`
 	Note     string `json:"note,omitempty"`
+	// Alt groups the divergences of a crash result: the recovered state may be the one before OR the one after the
+	// interrupted step, so the result is a violation only if EVERY alternative has a divergence that is not a listed finding
+	Alt string `json:"alt,omitempty"`
 }
 
 // Session replays one behaviour inside a World.  Dataset names and entity ids get
